@@ -11,7 +11,7 @@
  *         Q<bytes>/<ok> a job takes a sequence buffer (bufferSize = bytes) and gives it back
  *         C<ws|->/<ok1><ok2>  a job takes a worker context, replaces its workspace by ws bytes (- : keeps it), gives it back
  *         I<n>/<sched>/<ldmHashLog|0>/<dictSize>/<windowLog>/<jobSize>  the whole ZSTDMT_initCStream_internal (level-1 parameters); the result token is
- *                       followed by [d=<ZSTD_sizeof_CDict(cdictLocal)>,rb=<round-buffer capacity the session needs>,hl=,bl=<LDM logs after adjustment>]:
+ *                       followed by [d=<bytes of the block that holds cdictLocal>,rb=<round-buffer capacity the session needs>,hl=,bl=<LDM logs after adjustment>]:
  *                       inputs of the model, which predicts the accounting
  *   per op:  <rc>/<nbWorkers>/<jobs>/<bufTotal>/<cctxTotal>/<seqTotal>/<live>/<sizeof>   (N = NULL, X = ZSTDMT_sizeof_CCtx crashed)
  *   then     end=<live after ZSTDMT_freeCCtx> badfree=<n>   (all numbers in hex) */
@@ -30,17 +30,29 @@ static u64 hx(const char* s) { return strtoull(s, NULL, 16); }
 #define ZV_TAG 0xC0FFEE5AC0FFEE5AULL
 static size_t zv_live = 0, zv_badFree = 0;
 static const char* zv_sched = "-"; static size_t zv_schedPos = 0;
+/* live blocks (single-threaded use: no job runs in this harness), to find the block a pointer lies in */
+#define ZV_MAXBLK 8192
+static struct { char* p; size_t n; } zv_blk[ZV_MAXBLK]; static int zv_nblk = 0;
 static void* zv_alloc(void* op, size_t sz) {
     u64* p; (void)op;
     if (zv_sched[zv_schedPos] == '0') { zv_schedPos++; return NULL; }
     if (zv_sched[zv_schedPos] == '1') zv_schedPos++;
     p = (u64*)malloc(sz + 16); if (!p) return NULL;
-    p[0] = sz; p[1] = ZV_TAG; __sync_add_and_fetch(&zv_live, sz); return (char*)p + 16;
+    p[0] = sz; p[1] = ZV_TAG; __sync_add_and_fetch(&zv_live, sz);
+    if (zv_nblk < ZV_MAXBLK) { zv_blk[zv_nblk].p = (char*)p + 16; zv_blk[zv_nblk].n = sz; zv_nblk++; }
+    return (char*)p + 16;
 }
 static void zv_free(void* op, void* ptr) {
-    u64* p; (void)op; if (!ptr) return; p = (u64*)((char*)ptr - 16);
+    u64* p; int i; (void)op; if (!ptr) return; p = (u64*)((char*)ptr - 16);
     if (p[1] != ZV_TAG) { __sync_add_and_fetch(&zv_badFree, 1); return; }
+    for (i = 0; i < zv_nblk; i++) if (zv_blk[i].p == (char*)ptr) { zv_blk[i] = zv_blk[--zv_nblk]; break; }
     p[1] = 0; __sync_sub_and_fetch(&zv_live, (size_t)p[0]); free(p);
+}
+/* bytes of the allocated block that contains [q] (0: none).  The local CDict is one block (structure inside its workspace);
+ * ZSTD_sizeof_CDict over-reports it by sizeof(ZSTD_CDict) in builds whose workspace puts a redzone in front of the structure */
+static size_t zv_block_of(const void* q) {
+    int i; for (i = 0; i < zv_nblk; i++) if ((const char*)q >= zv_blk[i].p && (const char*)q < zv_blk[i].p + zv_blk[i].n) return zv_blk[i].n;
+    return 0;
 }
 static void set_sched(const char* s) { zv_sched = (s && *s && *s != '-') ? s : "-"; zv_schedPos = 0; }
 
@@ -65,7 +77,7 @@ static void do_mtu(char** a, int n) {
     ZSTD_customMem cm; ZSTDMT_CCtx* m; int i; int order[1100]; int nfl = 0; char extra[160]; static unsigned char zv_dict[1 << 17];
     { size_t q; for (q = 0; q < sizeof zv_dict; q++) zv_dict[q] = (unsigned char)(q * 31 + (q >> 7)); }
     cm.customAlloc = zv_alloc; cm.customFree = zv_free; cm.opaque = NULL;
-    zv_live = 0; zv_badFree = 0;
+    zv_live = 0; zv_badFree = 0; zv_nblk = 0;
     set_sched(a[2]);
     m = ZSTDMT_createCCtx_advanced((unsigned)hx(a[1]), cm, NULL);
     set_sched("-");
@@ -126,7 +138,7 @@ static void do_mtu(char** a, int n) {
                 rc = ZSTD_isError(r) ? "M" : "K";
                 {   size_t const win = hlReq ? ((size_t)1 << wlog) : 0; size_t const sec = m->targetSectionSize; size_t const nbs = 2 + (m->targetPrefixSize > 0);
                     size_t const sections = sec * (nb > 1 ? nb : 1); size_t const need = (win > sections ? win : sections) + sec * nbs;
-                    snprintf(extra, sizeof extra, "[d=%llx,rb=%llx,hl=%x,bl=%x]", (u64)ZSTD_sizeof_CDict(m->cdictLocal), (u64)need,
+                    snprintf(extra, sizeof extra, "[d=%llx,rb=%llx,hl=%x,bl=%x]", (u64)zv_block_of(m->cdictLocal), (u64)need,
                              hlReq ? lp.hashLog : 0, hlReq ? lp.hashLog - lp.bucketSizeLog : 0); }
             } }
         else { printf("BADTOKEN "); continue; }
